@@ -204,6 +204,49 @@ def PExprList.naive : PExprList → PredList
   | .cons e es => .cons e.naive es.naive
 end
 
+mutual
+/-- the expression uses negation somewhere (class of the recorded finding `C03-not-call-predicate`: in surface syntax the
+    builtin function `not (p)` is instantiated as a `Call` predicate, not as the negation of `p`) -/
+def PExpr.hasNot : PExpr → Bool
+  | .not _ => true
+  | .and a b | .or a b | .rand a b => a.hasNot || b.hasNot
+  | .rnot a => a.hasNot
+  | .ror es => es.hasNot
+  | _ => false
+def PExprList.hasNot : PExprList → Bool
+  | .nil => false
+  | .cons e es => e.hasNot || es.hasNot
+end
+
+mutual
+/-- the built predicate contains a `Not` node (what `invert` leaves around `And`/`Or`/…) -/
+def Pred.hasNotNode : Pred → Bool
+  | .not _ => true
+  | .and p q => p.hasNotNode || q.hasNotNode
+  | .or ps => ps.hasNotNode
+  | _ => false
+def PredList.hasNotNode : PredList → Bool
+  | .nil => false
+  | .cons p ps => p.hasNotNode || ps.hasNotNode
+end
+
+mutual
+/-- `Predicate::possible_tps`: the constants of `Equal` atoms reachable through `Or` only -/
+def Pred.possibleTps : Pred → List Int
+  | .eq c => [c]
+  | .or ps => ps.possibleTps
+  | _ => []
+def PredList.possibleTps : PredList → List Int
+  | .nil => []
+  | .cons p ps => p.possibleTps ++ ps.possibleTps
+end
+
+/-- class of the recorded finding `C03-substitute-not-shortcut`: the refinement arm of `structural_supertype_of` first tries
+    "`P` evaluated at each possible value of `Q`" using `Predicate::substitute`, which on an atom over the subject replaces the
+    atom's *constant* (`I >= 0` becomes `I >= v`) instead of the subject; when `P` contains a `Not` node this evaluation can
+    come out `True` for a value outside `P`. -/
+def substituteShortcutClass (p q : Pred) : Bool := p.hasNotNode && !q.possibleTps.isEmpty
+
 /-! ### `Predicate::ands / ors` -/
 
 /-- duplicate removal (`Set<&Predicate>` collapses equal members); keeps first occurrences -/
